@@ -83,10 +83,14 @@ def run_history(case, salt, ops, quiet, color):
                 else:
                     apply_op(edit, op)
             tighten_fully(edit)
+            # what the client sees once the edit reports no more progress - BEFORE anything else touches the sub-edits
+            # (listing the script below refines them as a side effect)
+            b0 = edit.bounds()
+            seen = "%s..%s" % (b0.lower_bound, b0.upper_bound)
             fl = Flattener(Table(a), Table(b))
             fl.flatten(edit)
             script = [{k: v for k, v in e.items() if k != "cls"} for e in fl.events]
-            ev["out"] = "%d/%s" % (_cost(edit), digest(script))
+            ev["out"] = "%s=%d/%s" % (seen, _cost(edit), digest(script))
     except Expired:
         ev["raised"], ev["exc"] = True, "watchdog: did not terminate"
     except Inconclusive as ex:
